@@ -365,6 +365,63 @@ function structuralOnly(rt, env, depth) {
   }
   return true;
 }
+// "consists only of declared parts of the input", for EVERY type: no key of the parsed value, at any depth (entries of a Map and
+// items of a Set included), is a key that NO type at that position declares. Several members of a union or an intersection may
+// describe one position (their parses are merged), so the candidates of a position are all of them; `any`, `unknown` and `object`
+// keep what they are given. An over-approximation of "declared": it fails only for a key declared nowhere.
+const ANYTHING = Symbol("anything");
+function flattenCands(rts, env, depth, out) {
+  for (const rt of rts) {
+    if (depth > 40) return ANYTHING;
+    if (rt instanceof Atom) { if (rt.s === "any") return ANYTHING; out.push(rt); continue; }
+    if (typeof rt === "string") continue;
+    let r = null;
+    switch (head(rt)) {
+      case "anyof": case "allof": r = flattenCands(rt.slice(1), env, depth + 1, out); break;
+      case "disc": r = flattenCands(rt[1], env, depth + 1, out); break;
+      case "ref": { const t = lookupEnv(env, rt[1]); if (!t) return ANYTHING; r = flattenCands([t], env, depth + 1, out); break; }
+      case "desc": r = flattenCands([rt[2]], env, depth + 1, out); break;
+      case "opt": r = flattenCands([rt[1]], env, depth + 1, out); break;
+      case "typeof": if (rt[1] === "object") return ANYTHING; out.push(rt); break;
+      default: out.push(rt);
+    }
+    if (r === ANYTHING) return ANYTHING;
+  }
+  return out;
+}
+function declaredSomewhere(rts, v, env, depth) {
+  if (depth > 40 || v === null || typeof v !== "object" || v instanceof Date || ArrayBuffer.isView(v)) return true;
+  const cs = flattenCands(rts, env, 0, []);
+  if (cs === ANYTHING) return true;
+  if (Array.isArray(v)) {
+    return v.every((x, i) => {
+      const subs = [];
+      for (const c of cs) { if (head(c) === "array") subs.push(c[1]); else if (head(c) === "tuple") { if (i < c[1].length) subs.push(c[1][i]); else if (!isAtom(c[2], "none")) subs.push(c[2]); } }
+      return subs.length === 0 || declaredSomewhere(subs, x, env, depth + 1);
+    });
+  }
+  if (v instanceof Map) {
+    const ms = cs.filter((c) => head(c) === "map");
+    if (!ms.length) return true;
+    for (const [k, x] of v) if (!declaredSomewhere(ms.map((c) => c[1]), k, env, depth + 1) || !declaredSomewhere(ms.map((c) => c[2]), x, env, depth + 1)) return false;
+    return true;
+  }
+  if (v instanceof Set) {
+    const ss = cs.filter((c) => head(c) === "set");
+    if (!ss.length) return true;
+    for (const x of v) if (!declaredSomewhere(ss.map((c) => c[1]), x, env, depth + 1)) return false;
+    return true;
+  }
+  const os = cs.filter((c) => head(c) === "object");
+  if (!os.length) return true;
+  for (const k of Object.keys(v)) {
+    const subs = [];
+    for (const o of os) { const p = o[1].find((q) => q[0] === k); if (p) subs.push(p[1]); for (const [, iv] of o[2]) subs.push(iv); }
+    if (!subs.length) return false;
+    if (!declaredSomewhere(subs, v[k], env, depth + 1)) return false;
+  }
+  return true;
+}
 function projection(d, x) {
   if (d === null || d === undefined) return x === null || x === undefined;
   if (typeof d !== "object") return Object.is(d, x) || (typeof d === "number" && d === x);
@@ -521,6 +578,8 @@ export function makeRunner(rt_, mode) {
           // members contribute keys) the parsed value has no undeclared key at any depth — Map keys included — i.e. the same
           // validator accepts it in strict mode
           if (structuralOnly(rt0, envSx, 0) && !parser.validate(data, { disallowExtraProperties: true })) bad.add("c03.undeclared");
+          // … and for every type: no key that no type at its position declares
+          if (!declaredSomewhere([rt0], data, envSx, 0)) bad.add("c03.undeclared");
           if (!projection(data, x)) bad.add("c03.proj");
           const again = parser.safeParse(data, opt("input"));
           if (!again.success || !same(again.data, data)) bad.add("c03.idem");
